@@ -18,15 +18,19 @@ open XmppModel.Close
 /-- **lock discipline** (what cannot be probed from one goroutine; regenerated from the source by
 an abstract walk that follows calls into the package, closures and method values, accepts if
 chains and switches alike and takes the names of the locks from the exported anchors
-`TokenWriter` / `State`): every exported entry point that looks at or sets the closed bit of the
-output stream — in its body or in any helper — does so while it holds the output lock (so the
-answer of the test cannot be overtaken by a `Close`: hypothesis `checks` of the `Lts` senders, the
-`locked` control point); the input context `SetCloseDeadline` replaces is touched under the state
-mutex only (the data race of round 1). -/
+`TokenWriter` / `State`).  Round E: the walk starts from EVERY exported method of `*Session` (no
+list of names in the extractor); a row is emitted for each one that looks at or sets the closed
+bit of the output stream, in its body or in any helper.  Every such method does so while it holds
+the output lock (so the answer of the test cannot be overtaken by a `Close`: hypothesis `checks`
+of the `Lts` senders, the `locked` control point) — a new exported method that tests the bit
+outside the lock adds a row with `false` —, the methods the models are about are among them, and
+the input context `SetCloseDeadline` replaces is touched under the state mutex only (the data
+race of round 1). -/
 theorem C10_gen_lock_discipline :
-    Generated.C10.closedBitUnderOutputLock = some
-      [("Close", true), ("Encode", true), ("EncodeElement", true), ("Send", true), ("SendElement", true), ("Serve", true)] ∧
-    Generated.C10.deadlineSynchronised = some true := by decide
+    (∃ l, Generated.C10.closedBitUnderOutputLock = some l ∧ l.all (·.2) = true ∧
+      ["Close", "Encode", "EncodeElement", "Send", "SendElement", "Serve"].all (fun n => l.any (·.1 == n)) = true) ∧
+    Generated.C10.deadlineSynchronised = some true :=
+  ⟨⟨_, rfl, by decide, by decide⟩, by decide⟩
 
 /-- **probe fact** (the real session was run by `harness facts`): for every way the streams get
 closed — `Close`, `Close` twice, `Serve` ending on the peer's closing tag, on a handler error
@@ -62,7 +66,7 @@ theorem C10_probe_closed_rows :
   decide
 
 /-- the probe table has a column for every transmit family of the property's text (the same list as
-`C10_gen_entry_points_complete`), for `Close`, and for the two token interfaces -/
+`C10_probe_exported_methods_complete`), for `Close`, and for the two token interfaces -/
 theorem C10_probe_entries_complete :
     ∀ n ∈ ["Send", "SendElement", "Encode", "EncodeElement", "SendIQ", "SendIQElement", "EncodeIQ", "EncodeIQElement",
         "SendMessage", "SendMessageElement", "EncodeMessage", "EncodeMessageElement", "SendPresence",
@@ -75,36 +79,27 @@ transmit entry reaches the connection -/
 example : (Probe.ways.filter fun w => (Probe.stateAfter w).outClosed).length = 8 := by decide
 example : ∀ e ∈ Probe.entries, e.2 ≠ .read → (Probe.cell (Probe.stateAfter ⟨"open", false, []⟩) e).2.2 = true := by decide
 
-/-- the functions of the package that write to the encoder or to the connection themselves:
-the three one-shot transmit functions (they test the closed bit, `C10_gen_checks`), the token
-writer's two methods (they test it per token), the two closers, a read-only probe, and stream
-negotiation (`negotiateSession`, `negotiator`, `writeStreamFeatures`, `teeConn.Write`), which runs
-before the session is handed to its user.  A new function that writes on its own changes this list -/
-def expectedWireFns : List String :=
-  ["Encode", "EncodeElement", "closeSession", "lockWriteCloser.EncodeToken", "lockWriteCloser.Flush",
-   "negotiateSession", "negotiator", "outputBroken", "send", "sendError", "teeConn.Write", "writeStreamFeatures"]
+/-- **probe fact, closure over the API** (round E; replaces the call-graph facts `wireFns` /
+`entryPoints`, which matched names of unexported functions and the spelling of write calls):
+`harness facts` enumerates EVERY exported method of `*Session` by reflection — the harness holds
+no list of names —, calls each with zero / small arguments on fresh sessions whose output was
+closed by `Close`, by `Serve`'s shutdown after the peer's closing tag and after a handler error,
+and records whether the connection saw a `Write`.  No exported method writes to the connection of
+a closed session, however it reaches the wire (`io.WriteString`, `io.Copy`, a `bufio.Writer`, a
+helper of any name): a new exported method that writes on its own is a row with `true`. -/
+theorem C10_probe_exported_methods_silent_when_closed :
+    ∃ t, Generated.C10.exportedMethodsProbe = some t ∧ t.all (fun r => !r.2) = true :=
+  ⟨_, rfl, by decide⟩
 
-theorem C10_gen_wire_fns : Generated.C10.wireFns = some expectedWireFns := by decide
-
-/-- the wire functions whose behaviour with respect to closing is modelled and checked -/
-def checkedWireFns : List String :=
-  ["send", "Encode", "EncodeElement", "lockWriteCloser.EncodeToken", "lockWriteCloser.Flush", "closeSession", "sendError"]
-
-/-- **every exported method of `*Session` that can reach the wire** (Send*, Encode*, SendIQ*,
-SendMessage*, SendPresence*, UnmarshalIQ*, IterIQ*, Close, Serve, …; call graph by name, an
-over-approximation) reaches it only through the checked functions -/
-theorem C10_gen_entry_points :
-    ∃ t, Generated.C10.entryPoints = some t ∧ ∀ e ∈ t, ∀ w ∈ e.2, w ∈ checkedWireFns := by
-  refine ⟨_, rfl, by decide⟩
-
-/-- and the list contains every transmit family of the property's text -/
-theorem C10_gen_entry_points_complete :
-    ∃ t, Generated.C10.entryPoints = some t ∧
+/-- … and the enumeration is not empty: it contains every transmit family of the property's
+text, `Close`, `Serve` and the two token interfaces -/
+theorem C10_probe_exported_methods_complete :
+    ∃ t, Generated.C10.exportedMethodsProbe = some t ∧
       ∀ n ∈ ["Send", "SendElement", "Encode", "EncodeElement", "SendIQ", "SendIQElement", "EncodeIQ", "EncodeIQElement",
         "SendMessage", "SendMessageElement", "EncodeMessage", "EncodeMessageElement", "SendPresence",
         "SendPresenceElement", "EncodePresence", "EncodePresenceElement", "UnmarshalIQ", "UnmarshalIQElement",
-        "IterIQ", "IterIQElement", "Close", "Serve"], n ∈ t.map (·.1) := by
-  refine ⟨_, rfl, by decide⟩
+        "IterIQ", "IterIQElement", "Close", "Serve", "TokenWriter", "TokenReader"], n ∈ t.map (·.1) :=
+  ⟨_, rfl, by decide⟩
 
 /-! ### Interleavings -/
 
@@ -931,27 +926,27 @@ theorem C10_serve_nil_fails_with_errors_is :
 
 /-! ### round 5: transmit calls and the connection's deadlines -/
 
-/-- regenerated: which deadline setter of the connection each function of the package mentions.
-`setWriteDeadline` (the watcher of the transmit calls) only the write deadline, `setDeadline`
-(negotiation) both, `SetCloseDeadline` the read deadline (`newConn` declares the optional
-interface of transports without deadlines). -/
-theorem C10_gen_deadline_setters :
-    Generated.C10.deadlineSetters = some
-      [("SetCloseDeadline", ["SetReadDeadline"]), ("newConn", ["SetReadDeadline", "SetWriteDeadline"]),
-       ("setDeadline", ["SetDeadline"]), ("setWriteDeadline", ["SetWriteDeadline"])] := by decide
-
-/-- regenerated: every deadline setter the transmit functions can reach through calls inside the
-package: the write deadline and nothing else -/
-theorem C10_gen_transmit_deadline_setters :
-    Generated.C10.transmitDeadlineSetters = some
-      [("Encode", ["SetWriteDeadline"]), ("EncodeElement", ["SetWriteDeadline"]), ("send", ["SetWriteDeadline"]),
-       ("lockWriteCloser.EncodeToken", []), ("lockWriteCloser.Flush", []), ("lockWriteCloser.Close", [])] := by decide
+open ConnDl in
+/-- **probe fact** (round E; replaces the source facts `deadlineSetters` /
+`transmitDeadlineSetters`, which named the unexported helpers `setWriteDeadline` / `setDeadline`):
+every transmit entry point of the probe table (all 22 families and the token writer's methods) is
+run on a real session whose connection records every deadline call, with a context that outlives
+the call and with a context that is cancelled while the connection write is blocked.  Whatever the
+helper is called and however it is spelled, the only setter a transmit call ever uses is
+`SetWriteDeadline` — the watcher of the model is the write-only one — and with a live context it
+uses none. -/
+theorem C10_probe_transmit_setters :
+    ∃ t, Generated.C10.transmitSetterProbe = some t ∧
+      (∀ r ∈ t, r.2.1 = [] ∧ ∀ n ∈ r.2.2, setterOf n = some Setter.write) ∧
+      -- non-vacuity: the calls that take a context did use the setter when it ended
+      (t.filter (fun r => r.2.2 == ["SetWriteDeadline"])).length = 23 :=
+  ⟨_, rfl, by decide, by decide⟩
 
 open ConnDl in
-/-- … so the watcher of every transmit function is the write-only one of the model -/
-theorem C10_gen_transmit_watcher_write_only :
-    ∀ p ∈ Generated.C10.transmitDeadlineSetters.getD [("none", ["none"])],
-      ∀ n ∈ p.2, setterOf n = some Setter.write := by decide
+/-- **probe fact**: `SetCloseDeadline` moves the read deadline and nothing else -/
+theorem C10_probe_close_deadline_setter :
+    ∃ l, Generated.C10.closeDeadlineSetterProbe = some l ∧ l ≠ [] ∧ ∀ n ∈ l, setterOf n = some Setter.read :=
+  ⟨_, rfl, by decide, by decide⟩
 
 open ConnDl in
 theorem ConnDl.run_write_rd : ∀ (evs : List Ev) (s : St),
